@@ -196,6 +196,21 @@ def c04_row(row, ref_map, qry_map, params, frag=None):
     total = 0.0
     rpos, qpos = ref_map.positions, qry_map.positions
     n = len(qpos)
+    # labels listed anywhere in the record (paired or unpaired): a label lying in the span of one segment but accounted for in
+    # another segment of the same record (a joined record: the second-pass segment was built on a fragment that does not contain
+    # the labels of the first-pass part) is accounted for once - exactly what the statement asks
+    all_rl, all_ql = set(), set()
+    for seg in row.segments:
+        for p in seg.positions:
+            if isinstance(p, AlignedPair):
+                all_rl.add(p.reference.siteId)
+                all_ql.add(p.query.siteId)
+            else:
+                inner = p.position if isinstance(p, ScoredNotAlignedPosition) else p
+                if isinstance(inner, NotAlignedReferencePosition):
+                    all_rl.add(inner.reference.siteId)
+                else:
+                    all_ql.add(inner.query.siteId)
     for seg in row.segments:
         if not seg.positions:
             continue
@@ -235,12 +250,12 @@ def c04_row(row, ref_map, qry_map, params, frag=None):
             return ((qry_map.length - 1 - qq) if row.reverseStrand else qq) + seg.peak.position
         if not bad:
             lo, hi = abs_pos(seg.positions[0]), abs_pos(seg.positions[-1])
-            if any(lo < c < hi and (i + 1) not in set(rl) for i, c in enumerate(rpos)):
+            if any(lo < c < hi and (i + 1) not in all_rl for i, c in enumerate(rpos)):
                 bad.append('no_reference_label_inside_the_span_unaccounted_for')
             shift_lo = min(ql) if ql else None
             for i, qq in enumerate(qpos):
                 c = ((qry_map.length - 1 - qq) if row.reverseStrand else qq) + seg.peak.position
-                if lo < c < hi and (i + 1) not in set(ql) and fragment_has(row, i + 1, frag):
+                if lo < c < hi and (i + 1) not in all_ql and fragment_has(row, i + 1, frag):
                     bad.append('no_query_label_inside_the_span_unaccounted_for')
                     break
         if abs(seg_total - seg.segmentScore) > 1e-6 * max(1.0, abs(seg_total)):
